@@ -1949,6 +1949,11 @@ func (t *tScreen) UnregisterRuneFallback(orig rune) {
 
 func (t *tScreen) CanDisplay(r rune, checkFallbacks bool) bool {
 
+	// the encoder is shared with drawCell and the fallback map can be
+	// changed by RegisterRuneFallback: both need the screen lock
+	t.Lock()
+	defer t.Unlock()
+
 	if enc := t.encoder; enc != nil {
 		nb := make([]byte, 6)
 		ob := make([]byte, 6)
@@ -1986,11 +1991,13 @@ func (t *tScreen) HasKey(k Key) bool {
 }
 
 func (t *tScreen) SetSize(w, h int) {
+	t.Lock()
 	if t.setWinSize != "" {
 		t.TPuts(t.ti.TParm(t.setWinSize, w, h))
 	}
 	t.cells.Invalidate()
 	t.resize()
+	t.Unlock()
 }
 
 func (t *tScreen) Resize(int, int, int, int) {}
@@ -2119,7 +2126,9 @@ func (t *tScreen) disengage() {
 
 // Beep emits a beep to the terminal.
 func (t *tScreen) Beep() error {
+	t.Lock()
 	t.writeString(string(byte(7)))
+	t.Unlock()
 	return nil
 }
 
